@@ -86,6 +86,18 @@ def state_rules(P, R, prop):
             allow = {p for p in P.reachable(own) if any(p.startswith(sh) for sh in SHARED)}
         except Exception:
             allow = {p for p in P.fns if any(p.startswith(sh) for sh in SHARED)}
+    # ITER-RESUME: a short-circuiting consumer applied again and again to one iterator created outside the repeated context
+    import iterresume
+    hits = 0
+    for f in own + [P.fns[p] for p in sorted(allow) if not P.fns[p].derived and "::tests" not in p]:
+        for name, meth, ctx, line in iterresume.scan(f.raw):
+            hits += 1
+            R.violated(rule, "iter-resume:%s:%s" % (short(f.path), name),
+                       "%s calls `%s.%s(..)` inside %s, but the iterator `%s` is created outside it: each repetition resumes where the "
+                       "previous one stopped, so elements before an earlier hit are never looked at again and the answer depends on the "
+                       "order of the underlying sequence (%s)" % (f.path, name, meth, ctx, name, what), loc="%s:%d" % (f.file, line))
+    if not hits:
+        R.holds(rule, "iter-resume:none", "no short-circuiting consumer is re-applied to an iterator that outlives the repeated context it runs in")
     memo_rule(P, R, rule, prefixes, what, allow)
     holders = global_state_holders(P)
     new = {h: v for h, v in holders.items() if _reviewed_holder(h, v[0]) is None}
